@@ -257,9 +257,10 @@ theorem cmpOp_ordered {op : String} (h : CmpOp op) : ∃ sop, (sop, op) ∈ orde
   · exact ⟨.lt, by decide⟩
   · exact ⟨.eq, by decide⟩
 
-theorem pyItem3_agree (E : Env) (X Y Z : Nat) (hE : EnvPy E X Y Z) (n op v : String) (h : PyItem3 n op v) :
+theorem pyItem3_agree {Q : String → List Nat → Prop} (E : Env) (X Y Z : Nat) (hE : EnvPy E X Y Z) (n op v : String)
+    (h : PyItemQ Q n op v) :
     (∃ b, itemV E n op v false = .ok b ∧ evalItem n op v false E = some b) ∧ itemCoherent n op v false = true := by
-  obtain ⟨lit, hn, hop, hne, hfull, rfl⟩ := h
+  obtain ⟨lit, hn, hop, hne, hfull, _, rfl⟩ := h
   obtain ⟨sop, hs⟩ := cmpOp_ordered hop
   obtain ⟨x, r, rfl⟩ : ∃ x r, lit = x :: r := by cases lit <;> simp_all
   rcases hn with rfl | rfl
@@ -270,18 +271,20 @@ theorem pyItem3_agree (E : Env) (X Y Z : Nat) (hE : EnvPy E X Y Z) (n op v : Str
     exact ⟨⟨b, h1, h2⟩, h3⟩
 
 mutual
-theorem pyAtom_agree (E : Env) (X Y Z : Nat) (hE : EnvPy E X Y Z) : ∀ a : Atom, PyAtom a → a.agree E ∧ a.coh = true
+theorem pyAtom_agree {Q : String → List Nat → Prop} (E : Env) (X Y Z : Nat) (hE : EnvPy E X Y Z) :
+    ∀ a : Atom, PyAtomQ Q a → a.agree E ∧ a.coh = true
   | .item n op v sw, h => by
-    simp only [PyAtom] at h
+    simp only [PyAtomQ] at h
     obtain ⟨rfl, hi⟩ := h
     simpa [Atom.agree, Atom.coh] using pyItem3_agree E X Y Z hE n op v hi
   | .paren m, h => by
-    simpa [Atom.agree, Atom.coh] using pySyn_agree E X Y Z hE m (by simpa [PyAtom] using h)
-theorem pySyn_agree (E : Env) (X Y Z : Nat) (hE : EnvPy E X Y Z) : ∀ s : Syn, PySyn s → s.agree E ∧ s.coh = true
+    simpa [Atom.agree, Atom.coh] using pySyn_agree E X Y Z hE m (by simpa [PyAtomQ] using h)
+theorem pySyn_agree {Q : String → List Nat → Prop} (E : Env) (X Y Z : Nat) (hE : EnvPy E X Y Z) :
+    ∀ s : Syn, PySynQ Q s → s.agree E ∧ s.coh = true
   | .one a, h => by
-    simpa [Syn.agree, Syn.coh] using pyAtom_agree E X Y Z hE a (by simpa [PySyn] using h)
+    simpa [Syn.agree, Syn.coh] using pyAtom_agree E X Y Z hE a (by simpa [PySynQ] using h)
   | .more a _ rest, h => by
-    simp only [PySyn] at h
+    simp only [PySynQ] at h
     have h1 := pyAtom_agree E X Y Z hE a h.1
     have h2 := pySyn_agree E X Y Z hE rest h.2
     simp [Syn.agree, Syn.coh, h1.1, h1.2, h2.1, h2.2]
@@ -359,11 +362,12 @@ theorem parseMarker_sem {E : Env} {ev : Leaf → Bool} {G : Leaf → Prop} (S : 
 
 /-- what `create_nested_marker` prints for a constraint of the domain: the empty text for the universal range,
 otherwise a text that parses to a tree of python items whose reference value is membership -/
-theorem createNested_syn (E : Env) (c : VC) (hd : PyDomVC c = true) (X Y Z : Nat) (hE : EnvPy E X Y Z) :
+theorem createNested_synQ {Q : String → List Nat → Prop} (E : Env) (c : VC) (hd : PyDomVC c = true)
+    (hQ : ∀ rc ∈ c.flatten, RCBoundQ Q rc) (X Y Z : Nat) (hE : EnvPy E X Y Z) :
     ∃ txt, createNestedMarker "python_version" c = .ok txt ∧
       ((txt = "" ∧ c.allowsPlain (pyV X Y Z) = true) ∨
        (txt.isEmpty = false ∧ ∃ syn, parseText txt = .ok syn ∧
-          evalSyn E syn = some (c.allowsPlain (pyV X Y Z)) ∧ PySyn syn)) := by
+          evalSyn E syn = some (c.allowsPlain (pyV X Y Z)) ∧ PySynQ Q syn)) := by
   have hnonempty : ∀ (t : String) (syn : Syn), parseText t = .ok syn → t.isEmpty = false := by
     intro t syn hp
     cases h : t.isEmpty with
@@ -382,20 +386,27 @@ theorem createNested_syn (E : Env) (c : VC) (hd : PyDomVC c = true) (X Y Z : Nat
         simp only [RC.isAny, VRange.isAny, Bool.and_eq_true, Option.isNone_iff_eq_none] at ha
         simp [VC.allowsPlain, VC.flatten, RC.allows, VRange.allows, VRange.allowsLo, VRange.allowsHi, ha.1, ha.2]
     · have hd' : PyDom rc = true := by simpa [PyDomVC, ha] using hd
-      obtain ⟨syn, _, hp, he, hpy⟩ := nestedRC_conj E rc hd' X Y Z hE
+      obtain ⟨syn, _, hp, he, hpy⟩ := nestedRC_conj E rc hd' (hQ rc (by simp [VC.flatten])) X Y Z hE
       have hal : (VC.single rc).allowsPlain (pyV X Y Z) = rc.allows (pyV X Y Z) := by
         simp [VC.allowsPlain, VC.flatten]
       exact ⟨nestedRC "python_version" rc, by simp [createNestedMarker, VC.isAny, ha],
         Or.inr ⟨hnonempty _ syn hp, syn, hp, by rw [hal]; exact he, hpy⟩⟩
   | union rs =>
     simp only [PyDomVC, Bool.and_eq_true, Bool.not_eq_true', List.isEmpty_eq_false_iff, List.all_eq_true] at hd
-    obtain ⟨syn, hp, he, hpy⟩ := nestedUnion_exact E rs hd.1 hd.2 X Y Z hE
+    obtain ⟨syn, hp, he, hpy⟩ := nestedUnion_exact E rs hd.1 hd.2 (fun rc hrc => hQ rc (by simpa [VC.flatten] using hrc)) X Y Z hE
     generalize htx : joinWith " or " (rs.map (fun rc => "(" ++ (if rc.isAny then "" else nestedRC "python_version" rc) ++ ")")) = tx at hp
     have hcn : createNestedMarker "python_version" (.union rs) = .ok tx := by
       simp [createNestedMarker, VC.isAny, htx]
     have hal : (VC.union rs).allowsPlain (pyV X Y Z) = rs.any (fun rc => rc.allows (pyV X Y Z)) := by
       simp [VC.allowsPlain, VC.flatten]
     exact ⟨tx, hcn, Or.inr ⟨hnonempty tx syn hp, syn, hp, by rw [hal]; exact he, hpy⟩⟩
+
+theorem createNested_syn (E : Env) (c : VC) (hd : PyDomVC c = true) (X Y Z : Nat) (hE : EnvPy E X Y Z) :
+    ∃ txt, createNestedMarker "python_version" c = .ok txt ∧
+      ((txt = "" ∧ c.allowsPlain (pyV X Y Z) = true) ∨
+       (txt.isEmpty = false ∧ ∃ syn, parseText txt = .ok syn ∧
+          evalSyn E syn = some (c.allowsPlain (pyV X Y Z)) ∧ PySyn syn)) :=
+  createNested_synQ E c hd (fun rc _ => rcBoundQ_true rc) X Y Z hE
 
 /-- the text is empty or parses to a tree in C06's proved domain on `E`: every item has a value that the
 reference shares (`agree`) and builds a coherent leaf (`coh`) -/
